@@ -198,7 +198,7 @@ def goodSites (ne0 : Bool) : ExpCfg :=
 def run (args : List String) : IO UInt32 := do
   let kv := parseArgs args
   let e := expCfgOfArgs kv
-  lineLoop stepLine30 { k := { cfg := cfgOfArgs kv, pol := .c30, pid := "C30", ar := ieeeWith (arg kv "wireGet" == "ne0"),
+  lineLoop stepLine30 { k := { cfg := cfgOfArgs kv, pol := .c30, pid := "C30", fltBitwise := boolOf (arg kv "fltSetBitwise"), ar := ieeeWith (arg kv "wireGet" == "ne0"),
                                stepF := stepF30 e }, e := e }
   return 0
 
@@ -207,7 +207,7 @@ def runC06 (args : List String) : IO UInt32 := do
   let kv := parseArgs args
   let ne0 := boolOf (arg kv "wireExpNe0")
   let e := goodSites ne0
-  lineLoop stepLine30 { k := { cfg := cfgOfArgs kv, pol := .c06, pid := "C06", ar := ieeeWith ne0, stepF := stepF30 e }, e := e }
+  lineLoop stepLine30 { k := { cfg := cfgOfArgs kv, pol := .c06, pid := "C06", fltBitwise := boolOf (arg kv "fltSetBitwise"), ar := ieeeWith ne0, stepF := stepF30 e }, e := e }
   return 0
 
 /-- C05's histories mix the expiry-aware requests in: same stepping, close/reload policy of C05, the
@@ -216,7 +216,7 @@ def runC05 (args : List String) : IO UInt32 := do
   let kv := parseArgs args
   let ne0 := boolOf (arg kv "wireExpNe0")
   let e := goodSites ne0
-  lineLoop stepLine30 { k := { cfg := cfgOfArgs kv, pol := .c05, pid := "C05", ar := ieeeWith ne0, stepF := stepF30 e }, e := e }
+  lineLoop stepLine30 { k := { cfg := cfgOfArgs kv, pol := .c05, pid := "C05", fltBitwise := boolOf (arg kv "fltSetBitwise"), ar := ieeeWith ne0, stepF := stepF30 e }, e := e }
   return 0
 
 end Driver.C30
